@@ -79,7 +79,7 @@ func (r Set[V]) SubsetOf(other Set[V]) bool {
 }
 
 func (r Set[V]) Diff(other Set[V]) Set[V] {
-	ret := r.getEmpty()
+	ret := Set[V]{getEmpty: r.getEmpty}
 
 	itr := r.Iterator()
 	for itr.HasNext() {
@@ -89,10 +89,10 @@ func (r Set[V]) Diff(other Set[V]) Set[V] {
 		}
 	}
 
-	return MakeSet(r.getEmpty, ret)
+	return ret
 }
 func (r Set[V]) Intersect(other Set[V]) Set[V] {
-	ret := r.getEmpty()
+	ret := Set[V]{getEmpty: r.getEmpty}
 
 	itr := r.Iterator()
 	for itr.HasNext() {
@@ -102,7 +102,7 @@ func (r Set[V]) Intersect(other Set[V]) Set[V] {
 		}
 	}
 
-	return MakeSet(r.getEmpty, ret)
+	return ret
 }
 
 func (r Set[V]) String() string {
